@@ -85,10 +85,7 @@ def validate(ctx, merged, module='Outcome'):
     items = []
     for ex in merged['extra']:
         items.extend(ex.get('traces', []))
-    # deviations beyond the cap were not judged: if none of the judged ones was rejected the run cannot conclude
-    if merged['counters'].get('deviations_not_kept') and not ctx.violations:
-        raise common.MachineryError('too many deviating outcomes to validate (%d dropped)'
-                                    % merged['counters']['deviations_not_kept'])
+    dropped = merged['counters'].get('deviations_not_kept')
     if not items:
         return
     flags, diags = common.validate_traces(ctx, module, [it[1] for it in items], what='C->S %s acceptor' % module)
@@ -106,6 +103,9 @@ def validate(ctx, merged, module='Outcome'):
         ctx.violation('acceptor-rejects', case, detail=dict(d, outcome=tr.get('outcome'), exc=tr.get('exc'), pos=tr.get('pos')),
                       sig=dict(clause='acceptor-rejects', kind=tr['kind'], outcome=tr.get('outcome'), exc=tr.get('exc'),
                                failed=','.join(d.get('failed_clauses', [])) or '?'))
+    # deviations beyond the cap were not judged: if none of the judged ones was rejected the run cannot conclude
+    if dropped and not ctx.violations:
+        raise common.MachineryError('too many deviating executions to validate (%d dropped)' % dropped)
 
 
 def run(ctx):
